@@ -5,20 +5,32 @@
  'trusted': ['antchfx/xpath v1.1.11 (the expression engine) enters the theorems as an arbitrary '
              'deterministic program over the NodeNavigator interface (free structure prog: observe / move / '
              'Copy / MoveTo over a register file of navigators); the engine itself is run, not modelled, by '
-             'the end-to-end comparison',
-             'reference binding antchfx/xmlquery v1.3.1: navigator transcribed from query.go; its parser '
-             'output is normalised by the harness to the XPath data model (DeclarationNode removed, '
-             'CharDataNode retyped TextNode) and the two navigator defects of the reference (Value() of the '
-             'document node is "", MoveToRoot() keeps the attribute index) are excluded by the named guard '
-             'ref_ok and demonstrated by the _refuted theorems',
-             'XML tokenisation (encoding/xml) and the construction of both trees are outside C11 (C08); '
-             'every case checks that the tree idr.NewXMLStreamReader built equals to_idr of the DOM'],
+             'the end-to-end comparison (its optional NamespaceURL side interface, used only by '
+             'namespace-uri(), is outside the interface and outside the generated expressions)',
+             'reference binding antchfx/xmlquery v1.3.1: navigator transcribed from query.go. Its parser '
+             'output is normalised by the harness to the XPath data model (DeclarationNode removed; '
+             'CharDataNode retyped TextNode, because v1.3.1 types all character data CharDataNode and its '
+             'navigator returns "" as their value); empty text nodes (from <![CDATA[]]>) are kept',
+             'repaired reference (harness fixNav = model run_dom true): xmlquery navigator with Value() of '
+             'the document node = its InnerText (Q1) and MoveToRoot() resetting the attribute index (Q2); '
+             'proved identical to xmlquery as it is on every execution that does not hit Q1/Q2 '
+             '(repair_conservative); the harness counts the evaluations in which the repair was active',
+             'XML tokenisation (encoding/xml) and the construction of both trees are outside the theorems '
+             '(C08); every document is checked node by node for equal shape of the two trees (a difference '
+             'is reported with an xpath-level witness such as count(//node())), and every Coq case checks '
+             'that the tree idr.NewXMLStreamReader built equals to_idr of the DOM xmlquery built',
+             'the string API (idr.MatchAll / MatchSingle over the process-wide compiled-expression cache of '
+             'go-corelib) is not modelled: it is exercised by sequences of near-identical expressions in one '
+             'process and compared with DisableXPathCache, MatchSingle and the reference on every query'],
  'assumptions': ['dom_wfb: only element nodes carry attributes (XML)',
                  'scope: documents without comment / processing-instruction nodes (the IDR does not '
                  'represent them)',
-                 'ref_ok: the execution on the reference performs neither Value() on the document node nor '
-                 'MoveToRoot() on an attribute position (xmlquery v1.3.1 defects Q1/Q2; on both the IDR '
-                 'follows the XPath data model)',
+                 'nav_programs_agree (xmlquery as it is) carries the named guard ref_ok: the execution on '
+                 'the reference performs neither Value() on the document node nor MoveToRoot() on an '
+                 'attribute position (xmlquery v1.3.1 defects Q1/Q2, witnesses in '
+                 'nav_programs_agree_unguarded_refuted; on both the IDR follows the XPath data model); '
+                 'nav_programs_agree_repaired has no guard',
                  'namespace prefixes are compared as strings (xpath v1.1.11 name tests use Prefix(), not the '
-                 'namespace URI); each URI bound to one prefix in generated documents (guard of known '
-                 'finding F11, which both parsers share)']}
+                 'namespace URI); each URI is bound to one prefix in generated documents (guard of known '
+                 'finding F11, which xmlquery shares: both parsers use one global URI->prefix map, so F11 is '
+                 'invisible to this oracle; corpus cases f11-*)']}
